@@ -9,8 +9,10 @@
    NOT proved (C04_full below): that the floating-point solve is accurate when 1 - T is
    ill-conditioned but passes the determinant test; that part is sampled by the plugin.          *)
 From Coq Require Import ZArith Reals List Lra Lia.
-From FF Require Import Base.Ops Inst.RInst Base.RAlg Model.Numeric Model.Propagator Model.Periodic
-                       Model.Tie.C04 Proofs.MatAlg Proofs.Propagator Proofs.Periodic.
+From FF Require Import Base.Ops Inst.RInst Base.RAlg Model.Numeric Model.Propagator Model.Periodic Model.Atomic
+                       Model.Tie.C04 Proofs.MatAlg Proofs.AtomicAlg Proofs.Atomic Proofs.Propagator Proofs.Periodic
+                       Proofs.PeriodicScratch.
+From FF Require Import Inst.IInst Inst.Param Inst.EnclosureC02.
 Import ListNotations.
 Local Open Scope R_scope.
 
@@ -68,6 +70,50 @@ Theorem C04_cm_periodic_partial : forall n na no G (ph : list Cx) (cm : Arr3 (T:
 Proof. exact cm_periodic_correct. Qed.
 Print Assumptions C04_cm_periodic_partial.
 
+(* link to C03 (atomic rule): what concatenate hands to calculate_control_matrix_from_atomic for G copies of a
+   pulse is the data of [atomic_repeated] ... *)
+Theorem C04_concat_atomic_repeat : forall d thr om bs ns (p : piece (T:=R)) G a k o,
+  (a < length ns)%nat -> (k < length bs)%nat -> (o < length om)%nat ->
+  a3get RO (concat_atomic RO d thr om bs ns (repeat p G)) a k o =
+  a3get RO (atomic_repeated RO (length bs) (length ns) (length om) G
+              (total_phases RO om (piece_tau RO p)) (piece_cm RO d thr om bs ns p)
+              (liouville RO d (piece_total RO d p) bs)) a k o.
+Proof. exact concat_atomic_repeat. Qed.
+
+(* ... HEADLINE: for every complete Hermitian basis, the periodic control matrix (either branch, explicit oracle
+   hypotheses) is the control matrix of the G-fold repeated pulse computed from scratch by the numeric engine
+   (spectral data played G times, propagators and times recomputed), for every G >= 1 and every frequency *)
+Theorem C04_periodic_eq_scratch_partial : forall d thr om bs ns (p : piece (T:=R)) G inv Ss a k o,
+  (forall l, (l < length bs)%nat -> fherm d (Cf bs l)) ->
+  (forall X : fmat, feq d X (flin (length bs) (fun l => ftr d (fmul d (Cf bs l) X)) (Cf bs))) ->
+  wf_piece ns p ->
+  (1 <= G)%nat -> (a < length ns)%nat -> (k < length bs)%nat -> (o < length om)%nat ->
+  let n := length bs in
+  let ph := total_phases RO om (piece_tau RO p) in
+  let L := liouville RO d (piece_total RO d p) bs in
+  (nth o inv false = false \/
+   (feq n (toF (solve_residual RO n (T_of RO n (nth o ph 0c) L) (nth o Ss []) G)) fzero /\
+    fleft_cancel n (fsub fid (toF (T_of RO n (nth o ph 0c) L))))) ->
+  a3get RO (cm_periodic RO n (length ns) (length om) G ph (piece_cm RO d thr om bs ns p) L inv Ss) a k o =
+  a3get RO (piece_cm RO d thr om bs ns (cat_piece (length ns) (repeat p G))) a k o.
+Proof. exact periodic_eq_scratch. Qed.
+Print Assumptions C04_periodic_eq_scratch_partial.
+
+(* qubit pulses in the Pauli basis: the basis hypotheses are discharged *)
+Theorem C04_periodic_eq_scratch_pauli : forall thr om ns (p : piece (T:=R)) G inv Ss a k o,
+  wf_piece ns p -> (1 <= G)%nat -> (a < length ns)%nat -> (k < 4)%nat -> (o < length om)%nat ->
+  let ph := total_phases RO om (piece_tau RO p) in
+  let L := liouville RO 2 (piece_total RO 2 p) pauli_basis in
+  (nth o inv false = false \/
+   (feq 4 (toF (solve_residual RO 4 (T_of RO 4 (nth o ph 0c) L) (nth o Ss []) G)) fzero /\
+    fleft_cancel 4 (fsub fid (toF (T_of RO 4 (nth o ph 0c) L))))) ->
+  a3get RO (cm_periodic RO 4 (length ns) (length om) G ph (piece_cm RO 2 thr om pauli_basis ns p) L inv Ss) a k o =
+  a3get RO (piece_cm RO 2 thr om pauli_basis ns (cat_piece (length ns) (repeat p G))) a k o.
+Proof. exact periodic_eq_scratch_pauli. Qed.
+(* the well-formedness hypothesis holds for C03's example piece (two non-commuting segments) *)
+Example C04_wf_piece_satisfiable : wf_piece ex_ns ex_p1.
+Proof. pose proof atomic_rule_hyps_satisfiable as H. inversion H. assumption. Qed.
+
 (* the full statement: whatever flags and whatever solve returns in floating point.  It is false for
    arbitrary oracle outputs (C04_singular_not_unique) and its floating-point version (accuracy of LAPACK
    near singular points) is outside the model; the plugin samples it.                                 *)
@@ -96,6 +142,31 @@ Theorem C04_tau_periodic : forall G cached dts, t_consistent cached dts ->
 Proof. exact periodic_tau. Qed.
 Theorem C04_total_phase : forall w tau G, cexp' (w * (INR G * tau)) = cpow RO (cexp' (w * tau)) G.
 Proof. exact total_phase_periodic. Qed.
+
+(* ---- enclosure (paramcoq, kernel-checked): the interval evaluations of the correspondence check enclose the
+        real-valued model values the theorems above are about (160-bit instance likewise: EnclC02B) ---- *)
+Theorem C04_cm_periodic_enclosure :
+  forall n1 n2 : nat, nat_R n1 n2 -> forall na1 na2 : nat, nat_R na1 na2 -> forall no1 no2 : nat, nat_R no1 no2 ->
+  forall G1 G2 : nat, nat_R G1 G2 ->
+  forall ph1 ph2, list_R _ _ (C_R _ _ PP.TR) ph1 ph2 ->
+  forall cm1 cm2, Arr3_R _ _ PP.TR cm1 cm2 ->
+  forall (L1 : list (list PP.M.I.type)) (L2 : list (list R)), list_R _ _ (list_R _ _ PP.TR) L1 L2 ->
+  forall inv1 inv2 : list bool, list_R _ _ bool_R inv1 inv2 ->
+  forall Ss1 Ss2, list_R _ _ (Mat_R _ _ PP.TR) Ss1 Ss2 ->
+  Arr3_R _ _ PP.TR (cm_periodic IOP n1 na1 no1 G1 ph1 cm1 L1 inv1 Ss1) (cm_periodic RO n2 na2 no2 G2 ph2 cm2 L2 inv2 Ss2).
+Proof. exact EnclC02.cm_periodic_enclosure. Qed.
+Theorem C04_atomic_repeated_enclosure :
+  forall n1 n2 : nat, nat_R n1 n2 -> forall na1 na2 : nat, nat_R na1 na2 -> forall no1 no2 : nat, nat_R no1 no2 ->
+  forall G1 G2 : nat, nat_R G1 G2 ->
+  forall ph1 ph2, list_R _ _ (C_R _ _ PP.TR) ph1 ph2 ->
+  forall cm1 cm2, Arr3_R _ _ PP.TR cm1 cm2 ->
+  forall (L1 : list (list PP.M.I.type)) (L2 : list (list R)), list_R _ _ (list_R _ _ PP.TR) L1 L2 ->
+  Arr3_R _ _ PP.TR (atomic_repeated IOP n1 na1 no1 G1 ph1 cm1 L1) (atomic_repeated RO n2 na2 no2 G2 ph2 cm2 L2).
+Proof. exact EnclC02.atomic_repeated_enclosure. Qed.
+(* the shared list used by the check is the model's list *)
+Theorem C04_S_list_from_eq : forall {T B} (Op : Ops T B) n no G ph L inv Ss,
+  S_list Op n no G ph L inv Ss = S_list_from no inv Ss (S_list Op n no G ph L [] []).
+Proof. exact @S_list_from_eq. Qed.
 
 (* ---- the hypotheses of C04_cm_periodic_partial are satisfiable on both branches:
         L = 1 (identity total propagator), phases 1 (singular: explicit sum) and i (solve), G = 2 ---- *)
